@@ -280,3 +280,28 @@ class enum_iter:
 
     def ensures_lists_items(self, result):
         return same_list(list(result), self.items)
+
+
+# ------------------------------------------------------------------------------------------ C16: x.sql / x.dbml
+from pyvc.speclib import abstract
+from pydbml.classes import StickyNote as _StickyNote, TableGroup as _TableGroup, Project as _Project
+from pydbml.renderer.dbml.default import DefaultDBMLRenderer as _DBML
+from pydbml.renderer.sql.default import DefaultSQLRenderer as _SQL
+
+
+@abstract('str')
+def render_via(R, model):
+    """what the renderer class R gives for this element in the current heap"""
+    return R.render(model)
+
+
+def owner_database(x):
+    """the database an element is attached to: a column's is its table's; tables, enums, references, groups, the
+    project and sticky notes carry their own; the other element kinds are never attached"""
+    return ((x.table.database if x.table is not None else None) if isinstance(x, Column) else
+            (x.database if (isinstance(x, Table) or isinstance(x, Enum) or isinstance(x, Reference)
+                            or isinstance(x, _TableGroup) or isinstance(x, _Project) or isinstance(x, _StickyNote))
+             else None))
+
+
+ELEMENT = 'Union[Table,Column,Enum,Reference,TableGroup,Project,StickyNote,Index,EnumItem,Note,Expression]'
